@@ -238,7 +238,10 @@ def table(tier="quick"):
         fam="FTrAlsSampled")
     add("tt_cross", "tensorly.contrib.decomposition.tensor_train_cross", lambda d: (lambda X=d.arr(*SH): tensor_train_cross(X, [1, 2, 2, 1], random_state=1)), fam="FTTCross")
     add("cmtf", "tensorly.decomposition._cmtf_als.coupled_matrix_tensor_3d_factorization",
-        lambda d: (lambda X=d.arr(*SH), Y=d.arr(4, 3): coupled_matrix_tensor_3d_factorization(X, Y, R, n_iter_max=3)), fam="FCmtf", real={"#2"})
+        lambda d: (lambda X=d.arr(*SH), Y=d.arr(4, 3): coupled_matrix_tensor_3d_factorization(X, Y, R, n_iter_max=3)), fam="FCmtf", opts=dict(init="ISvd"), real={"#2"})
+    add("cmtf_random_norm", "tensorly.decomposition._cmtf_als.coupled_matrix_tensor_3d_factorization",
+        lambda d: (lambda X=d.arr(*SH), Y=d.arr(4, 6): coupled_matrix_tensor_3d_factorization(X, Y, R, init="random", n_iter_max=2, normalize_factors=True)), fam="FCmtf",
+        opts=dict(init="IRandom", normalize=True), dts=ALL3, real={"#2", "#0.weights", "#1.weights"})
     for mk in (None, "same", "bool", "int", "f64"):
         add("robust_pca" + ("_mask_" + mk if mk else ""), "tensorly.decomposition.robust_pca",
             lambda d, mk=mk: (lambda X=d.arr(*SH), m=(d.mask(SH, mk) if mk else None): dec.robust_pca(X, mask=m, n_iter_max=3, verbose=0)),
@@ -322,7 +325,21 @@ def table(tier="quick"):
     add("cp_permute_factors", "tensorly.cp_tensor.cp_permute_factors",
         lambda d: (lambda i=cpinit(d): cpt.cp_permute_factors(CPTensor(i), [CPTensor((i[0].copy(), [f[:, ::-1].copy() for f in i[1]]))])), fam="FPermute",
         exempt={"#1": "permutation indices"})
-    add("cp_to_tensor_mask", "tensorly.cp_tensor.cp_to_tensor", lambda d: (lambda i=cpinit(d), m=d.mask(SH, "same"): cpt.cp_to_tensor(i, mask=m)), fam="FPure", dts=ALL3)
+    # the plain mask multipliers (family FMaskMul: the mask is used as passed in; see known_findings.d/C18.json mask_multiplier_*):
+    # every mask dtype class, all four data dtypes, both tenalg backends, the one-matrix / 1-D shortcuts
+    for mk in ("same", "bool", "int", "f64", "f32"):
+        add("cp_to_tensor_mask" + ("" if mk == "same" else "_" + mk), "tensorly.cp_tensor.cp_to_tensor",
+            lambda d, mk=mk: (lambda i=cpinit(d), m=d.mask(SH, mk): (cpt.cp_to_tensor(i, mask=m), cpt.cp_to_tensor((i[0], i[1][:1]), mask=m[:, 0, 0]), cpt.cp_to_tensor((None, i[1]), mask=m))),
+            fam="FMaskMul", mask=mk, dts=ALL3, slotmap={"#0": "out0", "#1": "out0", "#2": "out0"})
+        add("khatri_rao_mask_" + mk, "tensorly.tenalg.khatri_rao",
+            lambda d, mk=mk: (lambda i=cpinit(d), m=d.mask(SH, mk): (tenalg.khatri_rao(i[1], mask=m), tenalg.khatri_rao(i[1][:1], mask=m[:, 0, 0]), tenalg.khatri_rao(i[1], weights=i[0], skip_matrix=1, mask=m[:, 0, :]),
+                                                                     _einsum(lambda: tenalg.khatri_rao(i[1], mask=m)))),
+            fam="FMaskMul", mask=mk, dts=ALL3, slotmap={"#0": "out0", "#1": "out0", "#2": "out0", "#3": "out0"})
+        add("cp_lstsq_grad_mask_" + mk, "tensorly.cp_tensor.cp_lstsq_grad",
+            lambda d, mk=mk: (lambda i=cpinit(d), X=d.arr(*SH), m=d.mask(SH, mk): cpt.cp_lstsq_grad(CPTensor(i), X, return_loss=True, mask=m)),
+            fam="FMaskMul", opts=dict(alt=True), mask=mk, dts=ALL3)
+    add("cp_lstsq_grad_nomask", "tensorly.cp_tensor.cp_lstsq_grad",
+        lambda d: (lambda i=cpinit(d), X=d.arr(*SH): cpt.cp_lstsq_grad(CPTensor(i), X, return_loss=True)), fam="FMaskMul", opts=dict(alt=True), dts=ALL3)
     add("cp_to_unfolded_vec", "tensorly.cp_tensor.cp_to_vec", lambda d: (lambda i=cpinit(d): (cpt.cp_to_vec(i), cpt.cp_to_unfolded(i, 1))), fam="FPure", dts=ALL3)
     add("cp_mode_dot", "tensorly.cp_tensor.cp_mode_dot", lambda d: (lambda i=cpinit(d), Mx=d.arr(2, 3): cpt.cp_mode_dot(CPTensor(i), Mx, 1, copy=True)), fam="FPure", dts=ALL3)
     add("cp_norm", "tensorly.cp_tensor.cp_norm", lambda d: (lambda i=cpinit(d): cpt.cp_norm(i)), fam="FPure", dts=ALL3, real={""})
@@ -336,7 +353,6 @@ def table(tier="quick"):
     add("khatri_rao_kron", "tensorly.tenalg.khatri_rao",
         lambda d: (lambda i=cpinit(d): (tenalg.khatri_rao(i[1]), tenalg.kronecker(i[1][:2]), tenalg.inner(i[1][0], i[1][0]), tenalg.outer([i[1][0][:, 0], i[1][1][:, 0]]))),
         fam="FPure", dts=ALL3)
-    add("khatri_rao_mask_einsum", "tensorly.tenalg.khatri_rao", lambda d: (lambda i=cpinit(d), m=d.mask(SH, "same"): _einsum(lambda: tenalg.khatri_rao(i[1], mask=m))), fam="FPure", dts=ALL3)
     add("mttkrp_einsum", "tensorly.tenalg.unfolding_dot_khatri_rao", lambda d: (lambda X=d.arr(*SH), i=cpinit(d): _einsum(lambda: tenalg.unfolding_dot_khatri_rao(X, i, 1))), fam="FPure", dts=ALL3)
     add("higher_order_moment", "tensorly.tenalg.higher_order_moment", lambda d: (lambda X=d.arr(6, 3): tenalg.higher_order_moment(X, 3)), fam="FMoment")
     # ------------------------------------------------------------------ random generators with dtype=
@@ -707,6 +723,18 @@ SELECT_CALLS = {"reshape", "transpose", "moveaxis", "take", "sum", "max", "min",
                 "unfold", "fold", "partial_unfold", "partial_fold", "matricize", "tensor_to_vec", "vec_to_tensor", "partial_tensor_to_vec", "partial_vec_to_tensor", "ravel",
                 "flatten", "diag", "trace", "delete", "compress", "permute", "copy", "conj", "sign"}
 MODULES = {"tl", "T", "np", "tenalg", "math", "warnings", "scipy", "tensorly", "backend"}
+# Exactness of call results ('complex stays complex' at source level).  A call that falls through to the default summary "promotion of the
+# array arguments" is EXACT (returns exactly the promoted dtype) only for the NumPy / backend functions and containers listed here and
+# for the library functions recorded as exact in the extraction baseline (EXACT_CALLEES, assume-guarantee: each of them is re-certified
+# exact on every run).  Every other call is translated as RealOf(promotion): inside the precision class of its arguments (which is all the
+# level-1 / level-2 check needs, its verdict does not change), never known to be exact.  Lists give exactness per position of a returned tuple.
+EXACT_CALLS = {"dot", "matmul", "einsum", "tensordot", "kron", "solve", "qr", "concatenate", "stack", "outer", "list", "tuple", "reversed", "sorted", "iter", "next",
+               "zip", "enumerate", "dict", "CPTensor", "TuckerTensor", "TTTensor", "TRTensor", "TTMatrix", "Parafac2Tensor", "vstack", "hstack", "append", "pad",
+               "multiply", "add", "subtract", "maximum", "minimum", "power", "square", "negative", "cumsum", "triu", "tril", "atleast_2d", "squeeze", "broadcast_to",
+               "partial_svd_flip", "svd_flip"}
+PARTIAL_EXACT = {"lstsq": [True, False, False, False], "svd": [True, False, True], "truncated_svd": [True, False, True], "randomized_svd": [True, False, True],
+                 "symeig_svd": [True, False, True], "eigh": [False, True], "svd_fun": [True, False, True]}
+EXACT_CALLEES = {}      # bare name of a library function -> True (every array output exact) | [bool per tuple position]; loaded from the baseline
 
 
 def weak_only(e):
@@ -796,6 +824,8 @@ class Translator:
         self.path, self.seen = [], {}
         self.intvars = set()
         self.weakvars = set()
+        self.retinfo = {}        # return variable -> (line of the return statement, position in the returned tuple, length of the tuple)
+        self.arrayvars = set()   # names bound to an ndarray (allocation, element-wise result, slice of one): `x op= v` on them is IN PLACE
 
     # ---- helpers
     def fresh(self, base, node=None, extra=""):
@@ -868,6 +898,12 @@ class Translator:
                 return ("real", base) if base is not None else None
             return base      # .T, .factors, .weights, .core ...
         if isinstance(n, ast.Subscript):
+            if isinstance(n.value, ast.Call) and isinstance(n.slice, ast.Constant) and isinstance(n.slice.value, int):
+                spec = self.spec_of(self.call_name(n.value))
+                if isinstance(spec, list):
+                    r = self.call(n.value, raw=True)
+                    k = n.slice.value
+                    return r if (-len(spec) <= k < len(spec) and spec[k]) else self.inexact(r)
             return self.ex(n.value)
         if isinstance(n, ast.BinOp):
             if isinstance(n.left, (ast.List, ast.Tuple)):
@@ -936,6 +972,7 @@ class Translator:
 
     def bind(self, tgt, el, symbolic):
         if isinstance(tgt, ast.Name):
+            self.arrayvars.discard(tgt.id)
             v = joinlist(self.flat(el)) if isinstance(el, list) else el
             if symbolic:
                 self.subst[tgt.id] = v
@@ -980,7 +1017,22 @@ class Translator:
                 return e[1] if e[0] == "dtypeof" else e
         return None
 
-    def call(self, n):
+    def spec_of(self, A):
+        if A in EXACT_CALLS:
+            return True
+        if A in PARTIAL_EXACT:
+            return PARTIAL_EXACT[A]
+        return EXACT_CALLEES.get(A)
+
+    def call_name(self, n):
+        d = self.dotted(n.func)
+        return d[-1] if d else (n.func.attr if isinstance(n.func, ast.Attribute) else None)
+
+    def inexact(self, r):
+        """value in the precision class of r, exactness unknown"""
+        return r if (r is None or r[0] in ("dtypeof", "dtconst", "real")) else ("real", r)
+
+    def call(self, n, raw=False):
         d = self.dotted(n.func)
         base_expr = None
         if d is None and isinstance(n.func, ast.Attribute):
@@ -1051,6 +1103,8 @@ class Translator:
             return ("real", x) if x is not None else None
         if A in UNARY_FLOAT:
             x = a0 if base_expr is None else base_expr
+            if x is not None and A in ("std", "var"):
+                return ("real", ("tofloat", x))      # real-valued also for complex input
             return ("tofloat", x) if x is not None else None
         if A == "index_update":
             tgt, val = (args + [None, None, None])[0], (args + [None, None, None])[2]
@@ -1078,7 +1132,39 @@ class Translator:
             arrs = [x for x in allv if not idxlike(x, self.intvars, self.weakvars) and not weaklike(x, self.weakvars)]
             if arrs:
                 return joinlist(arrs + [x for x in allv if weaklike(x, self.weakvars)])
-        return joinlist(allv)      # everything that goes in is promoted (NumPy arithmetic / modular summary of a library function)
+            return joinlist(allv)
+        r = joinlist(allv)      # everything that goes in is promoted (NumPy arithmetic / modular summary of a library function)
+        return r if (raw or self.spec_of(A) is True) else self.inexact(r)
+
+    def node_is_array(self, n):
+        """True only when the value of the ast node is certainly an ndarray (not a NumPy / Python scalar): allocations, tl.tensor, copies,
+        element-wise functions / arithmetic / slices of such values.  Used for one purpose: an augmented assignment to such a name is an
+        in-place NumPy operation (the dtype of the target is kept), to any other name it is a rebinding (promotion)."""
+        if isinstance(n, ast.Name):
+            return n.id in self.arrayvars
+        if isinstance(n, ast.BinOp):
+            return self.node_is_array(n.left) or self.node_is_array(n.right)
+        if isinstance(n, ast.UnaryOp) and not isinstance(n.op, ast.Not):
+            return self.node_is_array(n.operand)
+        if isinstance(n, ast.IfExp):
+            return self.node_is_array(n.body) and self.node_is_array(n.orelse)
+        if isinstance(n, ast.Subscript):
+            sl = n.slice
+            parts = sl.elts if isinstance(sl, ast.Tuple) else [sl]
+            return self.node_is_array(n.value) and any(isinstance(x, ast.Slice) for x in parts)
+        if isinstance(n, ast.Call):
+            d = self.dotted(n.func)
+            A = d[-1] if d else None
+            if d and len(d) > 1 and d[-2] in RNG_NAMES:
+                return False
+            if A in ALLOC or A in ("tensor", "array", "asarray", "zeros_like", "ones_like", "empty_like", "full_like"):
+                return True
+            if A in ("copy", "sqrt", "abs", "exp", "log", "sign", "clip", "transpose", "reshape", "conj", "flip", "sort", "cumsum", "index_update", "astype") and (n.args or isinstance(n.func, ast.Attribute)):
+                base = n.args[0] if (n.args and (d is None or d[0] in MODULES)) else (n.func.value if isinstance(n.func, ast.Attribute) else None)
+                return base is not None and self.node_is_array(base)
+            if A == "where" and len(n.args) == 3:
+                return self.node_is_array(n.args[1]) or self.node_is_array(n.args[2])
+        return False
 
     # ---- statements
     def assign(self, tgt, e):
@@ -1236,12 +1322,27 @@ class Translator:
             if len(s.targets) == 1 and isinstance(s.targets[0], (ast.Tuple, ast.List)) and isinstance(s.value, (ast.Tuple, ast.List)) \
                     and len(s.targets[0].elts) == len(s.value.elts):
                 vals = [self.ex(v) for v in s.value.elts]
-                for t, v in zip(s.targets[0].elts, vals):
+                arrs = [self.node_is_array(v) for v in s.value.elts]
+                for t, v, isarr in zip(s.targets[0].elts, vals, arrs):
                     self.assign(t, v)
+                    if isinstance(t, ast.Name):
+                        (self.arrayvars.add if isarr else self.arrayvars.discard)(t.id)
                 return
+            if len(s.targets) == 1 and isinstance(s.targets[0], (ast.Tuple, ast.List)) and isinstance(s.value, ast.Call):
+                spec = self.spec_of(self.call_name(s.value))
+                if isinstance(spec, list) and len(spec) == len(s.targets[0].elts):
+                    r = self.call(s.value, raw=True)
+                    for t, okk in zip(s.targets[0].elts, spec):
+                        self.assign(t, r if okk else self.inexact(r))
+                        if isinstance(t, ast.Name):
+                            self.arrayvars.discard(t.id)
+                    return
             e = self.ex(s.value)
+            isarr = self.node_is_array(s.value)
             for t in s.targets:
                 self.assign(t, e)
+                if isinstance(t, ast.Name):
+                    (self.arrayvars.add if isarr else self.arrayvars.discard)(t.id)
             return
         if isinstance(s, ast.AnnAssign):
             if s.value is not None:
@@ -1252,6 +1353,8 @@ class Translator:
             e = self.ex(s.value)
             if cur is None or e is None:
                 new = join(cur, e)
+            elif isinstance(s.target, ast.Name) and s.target.id in self.arrayvars:
+                new = ("into", cur, e)       # ndarray op= value: NumPy works in place, the dtype of the target is kept
             else:
                 new = ("div", cur, e) if isinstance(s.op, ast.Div) else ("op", cur, e)
             self.assign(s.target, new)
@@ -1266,6 +1369,7 @@ class Translator:
                     continue          # not an array of the numeric context (None, index / count outputs, Python scalars)
                 r = self.fresh("ret", v)
                 self.out.append((r, e)); self.defined.add(r); self.rets.append(r)
+                self.retinfo[r] = (getattr(s, "lineno", 0), vals.index(v), len(vals))
             return
         if isinstance(s, ast.If):
             self.ex(s.test)
@@ -1338,6 +1442,8 @@ class Translator:
                 e = None
             if e is not None:
                 self.wr(nm, e)
+                if e in (LIN, LMASK):
+                    self.arrayvars.add(nm)
         if a.kwarg is not None and a.kwarg.arg in ("context", "ctx"):
             self.wr(a.kwarg.arg, LIN)
 
@@ -1417,6 +1523,7 @@ def translate(fn_node, qual):
     gl = "[" + "; ".join(f"({vid(n)}, {gallina(e, vid)})" for n, e in loop) + "]"
     go = "[" + "; ".join(f'("*", (Var {vid(r)}))' for r in rets) + "]"
     return dict(qual=qual, prog=f"(mkprog {gi} {gl} {go})", n_init=len(init), n_loop=len(loop), n_out=len(rets), n_vars=len(ids), notes=tr.notes,
+                retinfo=[tr.retinfo.get(r) for r in rets],
                 leaves=sorted({x for _, e in init + loop for x in leaves_of(e)}))
 
 
@@ -1539,16 +1646,71 @@ def extract_cases(repo, levels_wanted):
     return cases, meta, errors, ex
 
 
-def load_extract_baseline():
+def load_extract_baseline(what="levels"):
     import json, os
     p = os.path.join(C.VERIF, "corpus", "C18", EXTRACT_BASELINE)
-    return json.load(open(p))["levels"] if os.path.exists(p) else {}
+    return json.load(open(p)).get(what, {}) if os.path.exists(p) else {}
+
+
+# the documented exceptions of C18 at source level: the ONLY functions that may stay uncertified (level 0) in the baseline
+DOCUMENTED_F64 = {"tensorly.metrics.leverage_scores.leverage_score_dist"}
+
+
+def _meet(a, b):
+    if a == b:
+        return a
+    if a is None or b is None:
+        return None
+    if a is True:
+        return b
+    if b is True:
+        return a
+    return [x and y for x, y in zip(a, b)] if len(a) == len(b) else None
+
+
+def callee_specs(ex, exact):
+    """bare function name -> True | [bool per tuple position]: which results of a library function are certified exact (all functions of
+    that name agreeing); derived from the per-output certification `exact` of the translations `ex`"""
+    per = {}
+    for q, r in ex.items():
+        name = q.rsplit(".", 1)[1]
+        if "error" in r or name.startswith("__"):
+            continue
+        e = exact.get(q)
+        outs = set(e["outs"]) if e else set()
+        info = r["retinfo"]
+        Ls = {i[2] for i in info if i is not None}
+        if e is None:
+            spec = None
+        elif any(i is None for i in info) or len(Ls) != 1 or next(iter(Ls)) == 1:
+            spec = True if len(outs) == r["n_out"] else None
+        else:
+            spec = [True] * next(iter(Ls))
+            for k, i in enumerate(info):
+                if k not in outs:
+                    spec[i[1]] = False
+            spec = True if all(spec) else spec
+        per.setdefault(name, []).append(spec)
+    merged = {}
+    for name, specs in per.items():
+        m = specs[0]
+        for sp in specs[1:]:
+            m = _meet(m, sp)
+        if m is not None and m is not False and (m is True or any(m)):
+            merged[name] = m
+    return merged
+
+
+def set_exact_callees(specs):
+    EXACT_CALLEES.clear()
+    EXACT_CALLEES.update(specs)
 
 
 def write_extract_baseline(repo=None):
     """measures, on the given tree, at which level every extracted function is certified and stores it"""
     import json, os
     repo = repo or C.REPO
+    set_exact_callees({})
     cases, meta, errors, ex = extract_cases(repo, lambda q: [2, 1])
     failing, n_eval, broken = C.run_case_shards("C18", HEADER, "case", cases, shard=40, tag="extbase")
     assert not broken and n_eval == len(cases), broken
@@ -1558,12 +1720,40 @@ def write_extract_baseline(repo=None):
             levels[q] = max(levels.get(q, 0), lvl)
         else:
             levels.setdefault(q, 0)
+    # which outputs are certified to have EXACTLY the data's dtype ('complex stays complex'), at the function's level.  Least fixpoint over
+    # the assumption "these library callees return exact results" (starts from none, grows monotonically)
+    rounds = 0
+    while True:
+        rounds += 1
+        ex = extract_all(repo)
+        xcases, xmeta = [], []
+        for q in sorted(ex):
+            r = ex[q]
+            if "error" in r or levels.get(q, 0) < 1:
+                continue
+            for k in range(r["n_out"]):
+                xcases.append(f"(CExtX {len(xcases)}%nat {levels[q]}%nat {r['prog']} [{k}%nat])")
+                xmeta.append((q, k))
+        xfailing, x_eval, xbroken = C.run_case_shards("C18", HEADER, "case", xcases, shard=60, tag="extbasex")
+        assert not xbroken and x_eval == len(xcases), xbroken
+        exact = {}
+        for i, (q, k) in enumerate(xmeta):
+            e = exact.setdefault(q, {"n_out": ex[q]["n_out"], "outs": []})
+            if i not in xfailing:
+                e["outs"].append(k)
+        specs = callee_specs(ex, exact)
+        print(f"exactness round {rounds}: {sum(len(e['outs']) for e in exact.values())} exact outputs, {len(specs)} exact callees")
+        if specs == dict(EXACT_CALLEES) or rounds >= 8:
+            break
+        set_exact_callees(specs)
     head, dirty = C.repo_head()
-    json.dump({"repo_head": head, "levels": levels, "untranslatable": errors,
+    json.dump({"repo_head": head, "levels": levels, "exact": exact, "exact_callees": dict(EXACT_CALLEES), "untranslatable": errors,
                "comment": "level 2: extracted dtype program certified for every mask dtype; 1: for a mask of the data's dtype; 0: not certified "
-                          "(documented float64 output or translator imprecision)"},
+                          "(documented float64 output: must be exactly DOCUMENTED_F64); exact[q].outs: positions (in the order of the return "
+                          "expressions) of the outputs certified to have EXACTLY the data's dtype at that level - the others are real-valued "
+                          "(norms, errors, abs) or joined with such values"},
               open(os.path.join(C.VERIF, "corpus", "C18", EXTRACT_BASELINE), "w"), indent=1, sort_keys=True)
-    return levels, errors
+    return levels, errors, exact
 
 # ---- self-test of the translator: random straight-line functions, executed for real and translated
 TR_TEMPLATES = [
@@ -1579,6 +1769,8 @@ TR_TEMPLATES = [
     "{v} = tl.concatenate([{a}, {b}])[:3]", "{v} = tl.stack([{a}, {b}])[0]", "{v} = tl.sign({a}) * tl.clip(tl.abs({a}) - 0.1, a_min=0)",
     "{v} = {a}.astype({b}.dtype)", "{v} = tl.tensor(np.random.RandomState(0).random_sample(3), **tl.context({a}))", "{v} = tl.tensor(np.random.RandomState(0).random_sample(3))",
     "{v} = tl.cumsum({a}, axis=0) / tl.tensor(tl.arange(3) + 1, **tl.context({b}))", "{v} = tl.cumsum({a}, axis=0) / (tl.arange(3) + 1)",
+    "{v} = tl.copy({a})\n    {v} *= {b}", "{v} = tl.copy({a})\n    {v} /= np.float64(2.0)", "{v} = tl.sqrt(tl.abs({a}) / 3)\n    {v} += mask", "{v} = tl.sum({a})\n    {v} += tl.sum({b})",
+    "{v} = tl.zeros((3,), **tl.context({a}))\n    {v} += tl.ones(3)", "{v} = 0.0\n    {v} += {a}", "{v} = tl.norm({a})\n    {v} *= np.float64(2.0)", "{v} = {a}[0:3]\n    {v} -= {b} * np.float64(0.5)",
     "{v} = tl.transpose(tl.reshape({a}, (3, 1)))[0] + {b}", "{v} = tl.max({a}) * {b}", "{v} = tl.sort({a}, axis=0) + tl.flip({b}, axis=0)",
 ]
 
@@ -1816,9 +2008,21 @@ def clf_active_set(f):
         and all(o == dbl for _, o, _ in i["failures"])
 
 
-# no known finding is open at the moment (c906acd and 45ef7df repaired both classes); the predicates are kept for the
-# replay messages and in case a class has to be registered again
-CLASSIFIERS = {}
+def clf_mask_multiplier(f):
+    """cp_to_tensor / khatri_rao / cp_lstsq_grad with a caller-supplied mask whose dtype the data's dtype does not absorb (NumPy
+    promotion of data and mask differs from the data's dtype: an int64 or float64 mask with float32 / complex64 data), every
+    offending array having exactly that promoted dtype (Theorem C18_mask_multiplier_is_promotion)"""
+    i = f["inputs"]
+    m, dt = i.get("mask_dtype"), i.get("dtype")
+    if m is None or dt is None or not i.get("failures") or not str(i.get("config", "")).startswith(("cp_to_tensor_mask", "khatri_rao_mask", "cp_lstsq_grad_mask")):
+        return False
+    prom = str(np.result_type(np.dtype(dt), np.dtype(m)))
+    return prom != dt and all(o == prom for _, o, _ in i["failures"])
+
+
+# the classes repaired by c906acd and 45ef7df are closed (their predicates are kept for the replay messages); open: the plain mask
+# multipliers (known_findings.d/C18.json mask_multiplier_*)
+CLASSIFIERS = {"mask_multiplier_promotes": clf_mask_multiplier}
 
 
 def _install_known_loader():
@@ -1842,17 +2046,42 @@ def _install_known_loader():
     C.load_known = load
 
 
+# rows written for real data that the entry point also supports with complex data (measured once by running every real-only row with
+# complex64 / complex128 input; non-negative methods and order-based constraints - simplex, monotone, unimodal, sparsity by sorting - are
+# meaningless for complex data and stay real-only).  They carry the 'complex stays complex' clause across the table; a raise with complex
+# data in one of THESE rows is counted as skipped (support for complex input is not what C18 states), never a verdict.
+COMPLEX_ALSO = {
+    "parafac_sparsity", "parafac_mask_same_random", "parafac_mask_same_svd", "parafac_mask_same_noerr", "parafac_mask_bool_random",
+    "parafac_mask_bool_svd", "parafac_mask_bool_noerr", "parafac_mask_int_random", "parafac_mask_int_svd", "parafac_mask_int_noerr",
+    "parafac_mask_f64_random", "parafac_mask_f64_svd", "parafac_mask_f64_noerr", "randomised_parafac", "randomised_parafac_svd", "sample_khatri_rao",
+    "constrained_l1", "constrained_l2", "constrained_l2sq", "constrained_normalize", "constrained_smooth", "tucker_mask_same_svd",
+    "tucker_mask_same_random", "tucker_mask_bool_svd", "tucker_mask_bool_random", "tucker_mask_int_svd", "tucker_mask_int_random",
+    "tucker_mask_f64_svd", "tucker_mask_f64_random", "tensor_ring_als", "tt_cross", "cmtf", "robust_pca", "robust_pca_mask_same",
+    "robust_pca_mask_bool", "robust_pca_mask_int", "robust_pca_mask_f64", "power_iteration", "symmetric_power_iteration", "prox_soft",
+    "prox_soft_vec", "prox_l1", "prox_l1_vec", "prox_l2", "prox_l2_vec", "prox_l2sq", "prox_l2sq_vec", "prox_smooth", "prox_smooth_vec",
+    "prox_normalize", "prox_normalize_vec", "prox_svt", "prox_procrustes", "fista_unconstrained", "admm_l1", "admm_l2", "admm_l2sq", "admm_normalize",
+    "admm_smooth", "admm_unconstrained", "cp_regressor", "tucker_regressor", "cp_plsr", "cp_permute_factors", "cp_lstsq_grad", "higher_order_moment",
+    "random_cp", "random_cp_orth_norm", "random_cp_full", "random_tucker", "random_tt", "random_tr", "random_tt_matrix", "random_parafac2",
+    "random_tensor", "leverage", "compress", "svd_mask_plain_same", "svd_mask_plain_bool", "partial_tucker_mask_bool", "partial_tucker_mask_int",
+    "parafac_mask_bool_linesearch", "class_CP_mask_bool", "class_ConstrainedCP", "class_CPPower", "tensor_ring_als_sampled_uniform",
+    "tensor_ring_als_ls_solve", "parafac2_conversions", "parafac2_normalise_no_weights", "higher_order_moment_einsum", "cp_regressor_matrix_y",
+    "tucker_regressor_reg", "cp_plsr_vector_y", "reflective_correlation", "backend_randn_gamma"}
+
+
 def dtypes_for(t, tier):
     dts = list(t["dts"])
     if t.get("lenient"):
         return dts
     if "complex128" in dts:
         dts.append("complex64")
+    elif t["name"] in COMPLEX_ALSO:
+        dts += ["complex128", "complex64"]
     return dts
 
 
 def run(chk):
     rng = random.Random(chk.seed)
+    set_exact_callees(load_extract_baseline("exact_callees"))
     chk.build_proofs()
     C.reset_backends()
     cases, meta = [], []
@@ -1927,6 +2156,10 @@ def run(chk):
                     # a loaded machine is not a property violation: counted and reported as skipped
                     chk.hist("skipped", "per-case timeout")
                     n_skipped += 1
+                    continue
+                if st != "ok" and data_dt not in t["dts"] and "complex128" not in t["dts"]:
+                    # a real-data row extended to complex input: support for complex data is not what C18 states
+                    chk.hist("skipped", "complex input rejected by a row written for real data: " + t["name"])
                     continue
                 if st != "ok" and t.get("lenient"):
                     # a random option combination the library rejects (for reasons unrelated to dtypes): counted, not a verdict
@@ -2015,6 +2248,45 @@ def run(chk):
                               "offending_statements_for_float32": extract_diagnose(C.REPO, q, "B" if lvl == 2 else "F32")})
         else:
             n_cert += 1
+    # ---- 4b. 'complex stays complex' at source level: the outputs recorded as EXACT in the baseline must still be certified exact
+    xbase = load_extract_baseline("exact")
+    ecases, emeta = [], []
+    n_shape = 0
+    for q in sorted(ex):
+        r = ex[q]
+        b = xbase.get(q)
+        if "error" in r or not b or not b["outs"] or base.get(q, 0) < 1:
+            continue
+        if b["n_out"] != r["n_out"]:
+            n_shape += 1      # the function returns a different number of arrays than at baseline: positions are not comparable
+            chk.notes.append(f"function {q} now has {r['n_out']} array outputs (baseline {b['n_out']}): exact-dtype positions not judged")
+            if q.rsplit(".", 1)[1] in EXACT_CALLEES:
+                chk.broken.append({"what": "C18 source-level exact-dtype tie: " + q + " is assumed to return exact results by its callers but its outputs changed shape; "
+                                           "regenerate corpus/C18/_extracted_levels.json (write_extract_baseline)", "detail": [b["n_out"], r["n_out"]]})
+            continue
+        outs = "[" + "; ".join(f"{k}%nat" for k in b["outs"]) + "]"
+        ecases.append(f"(CExtX {len(ecases)}%nat {base[q]}%nat {r['prog']} {outs})")
+        emeta.append((q, base[q], b["outs"], r))
+    efailing, e_eval, ebroken = C.run_case_shards("C18", HEADER, "case", ecases, shard=40, tag="extx")
+    chk.checker_cmds.append("coqc (vm_compute) on generated build/cases/C18/extx_*/*.v: Corr.C18.failing on CExtX cases (ext_exact_any / ext_exact_same)")
+    n_eval += e_eval
+    chk.cov["traces_validated_against_impl"] = n_eval
+    for b in ebroken:
+        chk.broken.append({"what": "correspondence corr:C18 (extracted programs, exact dtype) shard not evaluated", "detail": b})
+    for i, (q, lvl, outs, r) in enumerate(emeta):
+        chk.count(key=("extracted-exact", q), nontrivial=True)
+        chk.hist("stream", "extracted function, exact outputs")
+        if i in efailing:
+            chk.disagreement("corr:C18 dtype program extracted from the source of " + q + ": an output that was certified to have EXACTLY the data's dtype "
+                             "(complex stays complex; Model/Dtype.v all_exact2) no longer is, at level " + str(lvl),
+                             {"function": q, "level": lvl, "exact_output_positions": outs, "leaves": r["leaves"], "statements": [r["n_init"], r["n_loop"]]})
+    chk.notes.append(f"source-level exact-dtype tie: {len(emeta)} functions with {sum(len(m[2]) for m in emeta)} outputs certified to have exactly the data's dtype "
+                     f"in all four contexts; {n_shape} not judged (number of outputs changed)")
+    # ---- 4c. the documented exceptions are exactly the uncertified functions
+    lvl0 = {q for q, l in base.items() if l == 0}
+    if lvl0 != DOCUMENTED_F64:
+        chk.broken.append({"what": "C18 extraction baseline: the uncertified functions are not exactly the documented float64 exceptions",
+                           "detail": {"uncertified": sorted(lvl0), "documented": sorted(DOCUMENTED_F64)}})
     gone = sorted(q for q, l in base.items() if l >= 1 and q not in ex)
     chk.hist("extraction", f"certified {n_cert}")
     chk.notes.append(f"source-level extraction: {len(ex)} functions with array outputs translated, {n_cert} certified at their baseline level, "
